@@ -9,10 +9,18 @@ import negcommon as nc
 def run(ctx):
     quick = ctx.tier == "quick"
     pools = nc.emit_pool(ctx)
+    props = ["C01_Eligible", "C01_ForcedOnlyTLS", "C01_ReadyComplete", "C01_BitsMonotone", "C02_NoReadyInClear",
+             "C04_NoSwallow", "C12_EstabStable"]
     mc = ctx.model_check("MCNegotiation", nc.MC_CFG % dict(
-        pool="PoolQuick", maxcfg=2, rounds=2 if quick else 3, maxlist=2), 
-        ["C01_Eligible", "C01_ForcedOnlyTLS", "C01_ReadyComplete", "C01_BitsMonotone", "C02_NoReadyInClear",
-         "C04_NoSwallow", "C12_EstabStable"], timeout=1500)
+        pool="PoolQuick", maxcfg=2, rounds=2 if quick else 3, maxlist=2), props, timeout=1500)
+    if not quick:
+        # measured (8 workers): the larger pool with <= 2 kinds per configuration 9.1 M distinct states in 58 s,
+        # <= 3 kinds of the small pool 18.1 M in 115 s
+        for nm, kw in (("pool", dict(pool="PoolThorough", maxcfg=2, rounds=3, maxlist=2)),
+                       ("cfg3", dict(pool="PoolQuick", maxcfg=3, rounds=3, maxlist=2))):
+            m2 = ctx.model_check("MCNegotiation", nc.MC_CFG % kw, props, name="MCNegotiation_" + nm, timeout=2400)
+            mc.distinct += m2.distinct
+            mc.generated += m2.generated
     if ctx.replay:
         sc = json.load(open(ctx.replay))["case"]["scenario"]
         p = ctx.path("replay.ndjson")
@@ -20,7 +28,7 @@ def run(ctx):
         tr, summ = nc.run_scenarios(ctx, pools["pool_thorough.json"], scen_file=p)
     else:
         pool = pools["pool_quick.json" if quick else "pool_thorough.json"]
-        tr, summ = nc.run_scenarios(ctx, pool, n=4000 if quick else 60000, faults=False, reps=1 if quick else 4)
+        tr, summ = nc.run_scenarios(ctx, pool, n=4000 if quick else 300000, faults=False, reps=1 if quick else 4)
     rej, r = nc.validate(ctx, tr)
     ctx.log("validated %d traces / %d events: %d rejected (TLC %d states, %.1fs)" % (
         summ["traces"], summ["events"], len(rej), r.distinct, r.wall))
@@ -32,7 +40,8 @@ def run(ctx):
         "trace_events": summ["events"], "trace_states": r.distinct,
         "scenarios_run": summ["evaluations"], "distinct_traces": summ["distinct"],
         "rejected": len(rej), "binding_selftest_mutants_rejected": nself,
-        "design_check": "MCNegotiation: pool of 8 feature kinds, configurations <= 2 kinds, both roles, 3 initial states, <= %d lists of <= 2 entries, faults and cancellation" % (2 if quick else 3),
+        "design_check": ("MCNegotiation: pool of 8 feature kinds, configurations <= 2 kinds, both roles, 3 initial states, <= 2 lists of <= 2 entries, faults and cancellation" if quick else
+                         "MCNegotiation, three runs: small pool (8 kinds) x <= 2 kinds x <= 3 lists; larger pool x <= 2 kinds x <= 3 lists; small pool x <= 3 kinds x <= 3 lists; both roles, 3 initial states, lists of <= 2 entries, faults and cancellation"),
         "samples": summ["samples"][:2],
         "rule": "scenarios = seeded random (configuration <= 4 kinds from the TLC-emitted pool, role, initial bits, header script, advertisement lists with repeats/unknown names, selection script, failing features, tee); a trace is distinct if its event sequence differs",
     }, assumptions=["instrumented StreamFeature values stand for arbitrary features (masks, mandatory, restart, negotiable as in NegPool.tla)",
